@@ -15,7 +15,7 @@ import (
 func init() { Registry["C04"] = checkC04 }
 
 func checkC04(p *core.Prog, r *core.Report) {
-	r.Explanation = "Decides structural necessary conditions of no-lost-wake-up and queue order: (R1) in every function that lowers a key's depth (store LockManager.locked := locked - n), every path from that store to the function's exit calls wakeUpWaitLocks for the same manager; (R2) the wake-up pass re-reads the queue head after every grant and exits only when not waited / head nil / head inadmissible; (R3) GetWaitLock returns the container's Head() and discards only tombstoned or ack-pending entries; (R4) in Lock a newcomer is granted while the key is held and has waiters only with the priority flag and doCheckLockWaitPriority==true; (R5) doCheckLockWaitPriority is strict (>); (R6) AddWaitLock skips the switch to the priority ring only when priorities cannot differ. (R7) the migration to the priority ring feeds it in arrival order (inline slice before overflow ring). (R8) in Lock a path that adds a new holder and does not run the wake-up pass has tested the manager's waited flag false. NOT decided: FIFO/priority order inside the containers and their migrations (C20 territory), interleavings between the unlock and the pass."
+	r.Explanation = "Decides structural necessary conditions of no-lost-wake-up and queue order: (R1) in every function that lowers a key's depth (store LockManager.locked := locked - n), every path from that store to the function's exit calls wakeUpWaitLocks for the same manager; (R2) the wake-up pass re-reads the queue head after every grant and exits only when not waited / head nil / head inadmissible; (R3) GetWaitLock returns the container's Head() and discards only tombstoned or ack-pending entries; (R4) in Lock a newcomer is granted while the key is held and has waiters only with the priority flag and doCheckLockWaitPriority==true; (R5) doCheckLockWaitPriority is strict (>); (R6) AddWaitLock skips the switch to the priority ring only when priorities cannot differ. (R7) the migration to the priority ring feeds it in arrival order (inline slice before overflow ring). (R8) in Lock a path that adds a new holder and does not run the wake-up pass has tested the manager's waited flag false. (R9) doTimeOut and cancelWaitLock run the wake-up pass when a queued request leaves the queue ungranted (a real defect was repaired). NOT decided: FIFO/priority order inside the containers and their migrations (C20 territory), interleavings between the unlock and the pass."
 	r.Assumptions = []string{"Go type checker and go/ssa are correct for /repo", "container methods Head/Pop/Push/MaxPriority behave as a queue (C20, not claimed)"}
 	c04R1(p, r)
 	c04R2(p, r)
@@ -25,6 +25,7 @@ func checkC04(p *core.Prog, r *core.Report) {
 	c04R6(p, r)
 	c04R7(p, r)
 	c04R8(p, r)
+	c04R9(p, r)
 }
 
 var lmLocked = fk("server.LockManager", "locked")
@@ -574,5 +575,75 @@ func c04R8(p *core.Prog, r *core.Report) {
 		r.Violate(rule, key, bad, "a path grants the newcomer as a new holder and leaves without the wake-up pass and without having tested the manager's waited flag: a request queued because the key was unlocked (unlock_to_wait) stays queued although it is now admissible - and a later unlock does not help either", badTrace)
 	default:
 		r.Hold(rule, key, p.Pos(fn.Pos()), fmt.Sprintf("%d grant paths", n))
+	}
+}
+
+// c04R9: a queued request that leaves the queue without being granted - its
+// wait timed out (doTimeOut) or it was cancelled (cancelWaitLock) - may have
+// been the only thing that kept the requests behind it waiting (an exclusive
+// request in front of shared ones that fit beside the current holders). "At
+// every quiescent moment no key has an admissible live request at the head of
+// its queue" therefore needs the wake-up pass on these exits too, unless
+// nothing is queued any more.
+func c04R9(p *core.Prog, r *core.Report) {
+	const rule = "C04/R9"
+	r.Rule(rule, "doTimeOut / cancelWaitLock: a path that takes a queued request out of the queue (tombstone set, depth untouched) runs the wake-up pass before it returns, or has tested the manager's waited flag false", 2)
+	for _, name := range []string{"server.(*LockDB).doTimeOut", "server.(*LockDB).cancelWaitLock"} {
+		fn := mustFunc(p, r, name)
+		if fn == nil {
+			continue
+		}
+		n, bad, badTrace := 0, "", []string(nil)
+		ex := core.NewExplorer(p, core.Hooks{
+			Track: func(x *core.X, a core.Atom) bool { return strings.Contains(a.String(), ".waited ") },
+			Instr: func(x *core.X) {
+				if !x.Top() {
+					return
+				}
+				if st, ok := x.Ins.(*ssa.Store); ok {
+					if k, ok := storeKey(st.Addr); ok {
+						if k == fk("server.Lock", "timeouted") && x.Canon(st.Val).S == "true" {
+							x.Set("left", x.Pos())
+						}
+						if k == fk("server.LockManager", "locked") {
+							x.Set("depth", "1") // a hold ended: C04/R1's case
+						}
+					}
+					return
+				}
+				if calleeIs(x.Ins, "LockDB", "wakeUpWaitLocks") {
+					x.Set("woke", "1")
+				}
+			},
+			Exit: func(x *core.X, rets []core.Expr) {
+				if x.Get("left") == "" || x.Get("depth") == "1" {
+					return
+				}
+				n++
+				if x.Get("woke") == "1" {
+					return
+				}
+				for h := range x.St.Hist {
+					if strings.HasSuffix(core.Plain(h), ".waited == false") {
+						return
+					}
+				}
+				if bad == "" {
+					bad, badTrace = x.Get("left"), x.St.Trace
+				}
+			},
+		})
+		ex.Run(fn, nil)
+		key := name + ": a queued request that leaves is followed by the wake-up pass"
+		switch {
+		case ex.Imprecise != "":
+			r.Fail("C04/R9 %s: %s", name, ex.Imprecise)
+		case n == 0:
+			r.Fail("C04/R9: %s has no path on which a queued request leaves", name)
+		case bad != "":
+			r.Violate(rule, key, bad, "a queued request leaves the queue (timed out / cancelled) and the function returns without the wake-up pass: the request behind it can be admissible now (H holds shared, an exclusive A queued, a shared B behind A; A gives up: B is the live, admissible head and gets no reply until some later hold ends)", badTrace)
+		default:
+			r.Hold(rule, key, p.Pos(fn.Pos()), fmt.Sprintf("%d paths", n))
+		}
 	}
 }
